@@ -47,11 +47,13 @@ class TcpClient(object):
 
         msg_stop = False
         self.current_msg = ""
-        for b in self.buffer:
+        consumed = 0
+        for i, b in enumerate(self.buffer):
             if b == 59:
                 msg_stop = True
                 ts = time.time()
                 messages.append([self.current_msg, ts])
+                consumed = i + 1
             if b == 42:
                 msg_stop = False
                 self.current_msg = ""
@@ -59,7 +61,8 @@ class TcpClient(object):
             if (not msg_stop) and (48 <= b <= 57 or 65 <= b <= 70 or 97 <= b <= 102):
                 self.current_msg = self.current_msg + chr(b)
 
-        self.buffer = []
+        # keep the bytes after the last complete message for the next read
+        self.buffer = self.buffer[consumed:]
 
         return messages
 
